@@ -419,7 +419,13 @@ func runPowerLoss(t *testing.T, rc *RunCtx) {
 	tracePath := filepath.Join(ScratchRoot(), fmt.Sprintf("trace-%d.txt", dirCounter))
 	dirCounter++
 	defer os.Remove(tracePath)
-	out, code := runChildProc(t, dir, rc.Seed, 6+ch.Pick(6, 0), nil,
+	// periodic pruning is drawn here too: with it the store may treat its records differently
+	pruneEnv := "VERIF_CHILD_PRUNING=0"
+	if ch.Pick(2, 0) == 1 {
+		pruneEnv = "VERIF_CHILD_PRUNING=1"
+		rc.Stats.Inc("incarnations_with_periodic_pruning", 1)
+	}
+	out, code := runChildProc(t, dir, rc.Seed, 6+ch.Pick(6, 0), []string{pruneEnv},
 		[]string{"strace", "-f", "-y", "-s", "0", "-e", "trace=openat,write,pwrite64,fsync,fdatasync", "-o", tracePath})
 	rel, done := parseReleased(out)
 	if !done || code != 0 {
